@@ -540,6 +540,11 @@ func (r *RowCache) uuidsByConditionsAsIndexes(conditions []ovsdb.Condition, nati
 		if condition.Function == ovsdb.ConditionIncludes && isSet {
 			return nil
 		}
+		// every value includes an optional value that is not set, that is not
+		// an equality
+		if condition.Function == ovsdb.ConditionIncludes && v.Kind() == reflect.Ptr && v.IsNil() {
+			return nil
+		}
 		keys := []interface{}{}
 		if v.Kind() == reflect.Map && condition.Function == ovsdb.ConditionIncludes {
 			for _, key := range v.MapKeys() {
